@@ -127,6 +127,8 @@ func init() {
 			Run: func(P *Program, R *Report) { proofDLiteralRule(P, R) }},
 		Rule{ID: "C04.h", Explain: "a distributed proof list discloses through the merged proofs only: BuildDistributedProofList merges every proof for which the keyshare server sent a ProofP, decided per proof (proofPs[i] != nil) and for the whole list by proofPs != nil alone (the obligations of C14.f, same rule).",
 			Run: func(P *Program, R *Report) { sharedRule(P, R, "C14", "C14.f", "C04.h", nil) }},
+		Rule{ID: "C04.i", Explain: "what the verifier decodes is what was sent: ProofList.UnmarshalJSON makes one object per element, appends it only when classified, and returns nil only after the whole list was looked at (the obligations of C08.e, same rule) - one shared object merges the disclosed sets of all proofs of the list.",
+			Run: func(P *Program, R *Report) { sharedRule(P, R, "C08", "C08.e", "C04.i", nil) }},
 	)
 }
 
